@@ -10,6 +10,7 @@ import (
 	"net/http/httptest"
 	"strings"
 	"sync"
+	"verifharness/internal/netx"
 
 	"github.com/ipfs/go-cid"
 	"github.com/ipld/go-ipld-prime"
@@ -145,7 +146,7 @@ func NewPub(ch *Chain, name string, plain bool) (*Pub, error) {
 		if err != nil {
 			return nil, err
 		}
-		p.srv = httptest.NewServer(http.HandlerFunc(func(w http.ResponseWriter, r *http.Request) {
+		p.srv = netx.NewServer(http.HandlerFunc(func(w http.ResponseWriter, r *http.Request) {
 			p.mu.Lock()
 			p.paths = append(p.paths, r.URL.Path)
 			p.reqSeq++
@@ -164,7 +165,9 @@ func NewPub(ch *Chain, name string, plain bool) (*Pub, error) {
 		p.Addrs = []multiaddr.Multiaddr{HTTPAddr(p.srv.URL)}
 		return p, nil
 	}
-	p.Pub, err = ipnisync.NewPublisher(ls, p.Key, ipnisync.WithHTTPListenAddrs("http://127.0.0.1:0"))
+	p.Pub, err = netx.Retry(func() (*ipnisync.Publisher, error) {
+		return ipnisync.NewPublisher(ls, p.Key, ipnisync.WithHTTPListenAddrs("http://127.0.0.1:0"))
+	})
 	if err != nil {
 		return nil, err
 	}
@@ -187,7 +190,9 @@ func NewPubStream(ch *Chain, name string) (*Pub, error) {
 		}
 		return r, err
 	}
-	h, err := libp2p.New(libp2p.Identity(p.Key), libp2p.ListenAddrStrings("/ip4/127.0.0.1/tcp/0"))
+	h, err := netx.Retry(func() (host.Host, error) {
+		return libp2p.New(libp2p.Identity(p.Key), libp2p.ListenAddrStrings("/ip4/127.0.0.1/tcp/0"))
+	})
 	if err != nil {
 		return nil, err
 	}
